@@ -65,16 +65,26 @@ def run(prop, tier, seed):
         if prop == "C04":
             valid = [v[3] for v in valid_corpus(rnd, 1500 if not big else 20000)]
             strings = valid + corpus.near_misses(rnd, 7000 if not big else 120000) + corpus.arbitrary_text(rnd, 1500 if not big else 20000)
-            strings = list(dict.fromkeys(strings))
+            # spec -> code: TLC enumerates the complete single-edit neighbourhood (delete / replace / insert over a 12-character
+            # alphabet at every position) of this run's seed vectors, checks on it that the operational parser machine refines the
+            # grammar, and emits every string for the replayer
+            seeds = [corpus.random_vector(rnd, ver, p_opt=rnd.choice([0.0, 0.15]))[3] for ver in "234" for _ in range(1 if not big else 6)]
+            sf = os.path.join(work, "seeds.json")
+            json.dump(seeds, open(sf, "w"))
+            r = tlc_or_die("MC_Parser", env={"SEEDS_FILE": sf}, workers=8, timeout=3600)
+            c.add_tlc("MC_Parser: machine outcome = Classify on every <= 1-edit neighbour of %d seed vectors x 3 constructors; strings emitted" % len(seeds), r)
+            from common import parse_gen
+            neigh = [parse_gen(l)["s"] for l in r.lines if l.startswith("GEN ")]
+            if len(neigh) < 1000:
+                raise MachineryError("MC_Parser emitted only %d strings" % len(neigh))
+            c.extra["strings_generated_by_tlc"] = len(neigh)
+            strings = list(dict.fromkeys(strings + neigh))
             items = [{"op": "construct", "ver": ver, "s": esc(s), "json": False} for s in strings for ver in "234"]
             ev = record_events(items, work)
             for e in ev:                      # keep the trace small: C04 needs the outcome class only
                 if e["out"]["cls"] == "ok":
                     e["out"] = {"cls": "ok", "minor": e["out"]["minor"]}
             judge(c, prop, ev, work, "construct")
-            # design level: the operational parser machine refines the grammar on a bounded edit neighbourhood
-            r = tlc_or_die("MC_Parser", workers=8, timeout=1800)
-            c.add_tlc("MC_Parser: machine outcome = Classify for all <= 1-edit neighbours of 3 vectors x 3 constructors", r)
             # beyond the property: exact error messages predicted by the machine (NOTE lines of the same TLC run; never violations)
             notes = c.notes
             if any("SPEC-INCONSISTENT" in n for n in notes):
